@@ -28,6 +28,7 @@ import tempfile
 from harness import values as V
 
 ID = "C14"
+CHECK_BUILT_DESCRIPTOR = True     # engine.oracle_of: declared records must carry their declared descriptor
 CLAIM = dict(
     text="Kernel-checked theorems about an executable model of the JSON adapter: base64 decode(encode b) = b for ALL "
          "byte strings (induction on 3-byte chunks); value-level round trip for every supported type (text incl. "
